@@ -75,6 +75,9 @@ def main():
     rc, out = sh(f"git apply {patch}", cwd=REPO)
     assert rc == 0, f"patch does not apply to /repo: {out}"
     res = {}
+    # the evidence files must keep describing runs on the unchanged tree: save them, restore them afterwards
+    evdir = os.path.join(ROOT, "evidence")
+    saved = {f: open(os.path.join(evdir, f)).read() for f in os.listdir(evdir) if f.endswith(".json")}
     try:
         for c in checks:
             t = time.time()
@@ -86,6 +89,8 @@ def main():
                       "first_violation": next((l.strip()[:400] for l in outc.splitlines() if "violated:" in l), None)}
     finally:
         sh("git checkout -- .", cwd=REPO)
+        for f, txt in saved.items():
+            open(os.path.join(evdir, f), "w").write(txt)
     meta["checks"] = res
     meta["ran"].append(f"git -C /repo apply patch.diff; ./check <id> --tier {a.tier} for {checks}; git -C /repo checkout -- .")
     meta["confirmed"] = bool(rc0 == 0 and rc1 != 0 and (a.skip_suite or meta["suite_with_change"]["exit"] == 0))
